@@ -326,3 +326,22 @@ R.METHODS[("str", "isidentifier")] = lambda ip, r, a, kw, node: ZB(is_identifier
 nfkc = L.fn("unicode_normalize", L.V, L.V, L.V)       # unicodedata.normalize(form, s): text, uninterpreted
 R.EXTERNALS["unicodedata.normalize"] = R.ExtFn(lambda ip, a, kw, node: ZV(nfkc(as_v(a[0]), as_v(a[1])), "str"))
 R.SPEC["nfkc_"] = SpecFn(lambda ip, a_, kw: ZV(nfkc(as_v(PyC("NFKC")), as_v(a_[0])), "str"), "nfkc_")
+
+
+# ---- Type[obj] on a class object of the traced program: typing refuses a few classes as a type argument (Generic, Protocol: "Plain ... is not valid as type argument")
+from pyvc.state import RaisedEx as _RaisedEx
+typing_refuses = declare_pred("typing_refuses", L.V, L.B)
+
+
+def _type_subscript(ip, a, kw, node):
+    x = a[0]
+    if isinstance(x, PySeq) and len(x.items) == 1:
+        x = x.items[0]
+    if isinstance(x, ZV) and base_tag(x.tag) == "Val":
+        ln = getattr(node, "lineno", 0)
+        if ip.branch(typing_refuses(x.term), ln):
+            raise _RaisedEx(ExcVal("TypeError"), ln)
+    return ZV(TY.Type_(as_v(x)), "Ty")
+
+
+R.EXTERNALS["typing.Type.__getitem__"] = R.ExtFn(_type_subscript)
